@@ -8,6 +8,7 @@ and replayed on the real code before it is reported.
 from __future__ import annotations
 
 import dataclasses
+import ast
 import itertools
 import random
 import typing
@@ -671,6 +672,151 @@ def replay_h2_permits(flavour: str, args: dict[str, typing.Any]) -> bool:
 # ---------------------------------------------------------------------------
 # differential validation of the interpreter on concrete vectors
 # ---------------------------------------------------------------------------
+
+
+# ---------------------------------------------------------------------------
+# K6: keep-alive expiry arithmetic over real-valued time (C09, C16)
+# ---------------------------------------------------------------------------
+
+_STATE = {"NEW": 0, "ACTIVE": 1, "IDLE": 2, "CLOSED": 3}
+_H11 = {"IDLE": 10, "SEND_RESPONSE": 11, "SEND_BODY": 12, "DONE": 13, "MUST_CLOSE": 14, "CLOSED": 15, "ERROR": 16,
+        "MIGHT_SWITCH_PROTOCOL": 17, "SWITCHED_PROTOCOL": 18}
+
+
+def k_expiry(flavour: str) -> list[Result]:
+    """HTTP/1.1 connection: `_response_closed()` at instant t0 followed by `has_expired()` at any later instant t1,
+    with the keep-alive expiry, both instants and the previous deadline as REAL numbers."""
+    import importlib
+
+    mod = importlib.import_module(f"httpcore.{'_async' if flavour == 'async' else '_sync'}.http11")
+    cls = getattr(mod, "AsyncHTTP11Connection" if flavour == "async" else "HTTP11Connection")
+    name = f"{cls.__name__}._response_closed+has_expired"
+    closer = "aclose" if flavour == "async" else "close"
+    try:
+        fns = functions_of(cls)
+        keep = {k: v for k, v in fns.items() if k in ("_response_closed", "has_expired", closer)}
+        keep["driver"] = ast.parse("def driver(self):\n    self._response_closed()\n    self._later()\n    return self.has_expired()\n").body[0]  # type: ignore[assignment]
+        T0, T1 = z3.Real("t0"), z3.Real("t1")
+        E, En = z3.Real("expiry"), z3.Bool("expiry_is_none")
+        X, Xn = z3.Real("old_deadline"), z3.Bool("old_deadline_is_none")
+        OUR, THEIR = z3.Int("our_state"), z3.Int("their_state")
+        READABLE = z3.Bool("readable")
+
+        def env(it: Interp, fn: str, args: list, kwargs: dict) -> typing.Any:
+            if fn == "time.monotonic":
+                later = any(c[0] == "self._later" for c in it.path.calls)
+                it.path.calls.append((fn, (), {}))
+                return T1 if later else T0
+            it.path.calls.append((fn, tuple(args), kwargs))
+            if fn.endswith("get_extra_info"):
+                return READABLE
+            if fn == "self._later" or fn.endswith("start_next_cycle") or fn.endswith("_network_stream." + closer):
+                return None
+            raise Unsupported(f"environment call {fn}")
+
+        def mk() -> dict[str, typing.Any]:
+            return {"self": Obj(_state_lock=Obj(), _h11_state=Obj(our_state=OUR, their_state=THEIR), _state=_STATE["ACTIVE"],
+                                _keepalive_expiry=Opt(En, E), _expire_at=Opt(Xn, X), _network_stream=Obj())}
+
+        g = {"h11": I._Namespace(**_H11), "HTTPConnectionState": I._Namespace(**_STATE), "time": I._Namespace()}
+        assume = [T1 >= T0, E >= 0]
+        it = Interp(keep, env, unwind=2, globals_=g)
+        paths = it.explore("driver", mk, assume)
+    except (Unsupported, UnwindingExceeded) as e:
+        return [Result(name, "expiry", "unsupported", str(e))]
+    except (z3.Z3Exception, TypeError, AttributeError, KeyError) as e:  # a construct the subset does not model
+        return [Result(name, "expiry", "unsupported", f"{type(e).__name__}: {e}")]
+
+    def prop(p: I.Path) -> typing.Any:
+        if p.raised is not None:
+            return False
+        st = p.locals["self"].attrs["_state"]
+        done = z3.And(OUR == _H11["DONE"], THEIR == _H11["DONE"])
+        ret = I.truthy(p.ret)
+        ret = ret if I.is_sym(ret) else z3.BoolVal(bool(ret))
+        closed_call = any(c[0].endswith("_network_stream." + closer) for c in p.calls)
+        # exchange complete in both directions: idle, and expired exactly when the (new) deadline has passed or the
+        # peer has closed / sent unsolicited bytes; otherwise the connection is closed, never idle
+        want_idle = z3.And((st == _STATE["IDLE"]) if I.is_sym(st) else z3.BoolVal(st == _STATE["IDLE"]),
+                           ret == z3.Or(z3.And(z3.Not(En), T1 > T0 + E), z3.And(En, z3.Not(Xn), T1 > X), READABLE))
+        want_closed = z3.And(z3.BoolVal(closed_call), (st == _STATE["CLOSED"]) if I.is_sym(st) else z3.BoolVal(st == _STATE["CLOSED"]))
+        return z3.If(done, want_idle, want_closed)
+
+    def cex(m: z3.ModelRef, p: I.Path) -> dict[str, typing.Any]:
+        ev = lambda x: str(m.eval(x, model_completion=True))  # noqa: E731
+        return {"t0": ev(T0), "t1": ev(T1), "expiry": None if ev(En) == "True" else ev(E),
+                "old_deadline": None if ev(Xn) == "True" else ev(X), "our": ev(OUR), "their": ev(THEIR), "readable": ev(READABLE)}
+
+    return [_discharge(it, name, "after a complete exchange the connection is idle and has_expired() at any later real instant t1 holds exactly when "
+                       "t1 > t0 + keepalive_expiry (or, without an expiry, an older deadline has passed) or the socket is readable; after an incomplete one it is closed",
+                       paths, prop, assume, cex)]
+
+
+def replay_expiry(flavour: str, args: dict[str, typing.Any]) -> bool:
+    """Re-run the counterexample on the real class with exact rationals for the instants."""
+    import importlib
+    from fractions import Fraction
+
+    from .. import vrt
+
+    mod = importlib.import_module(f"httpcore.{'_async' if flavour == 'async' else '_sync'}.http11")
+    cls = getattr(mod, "AsyncHTTP11Connection" if flavour == "async" else "HTTP11Connection")
+    F = lambda v: None if v is None else Fraction(str(v).replace("?", ""))  # noqa: E731
+    t0, t1, e, x = F(args["t0"]), F(args["t1"]), F(args["expiry"]), F(args["old_deadline"])
+    inv = {v: k for k, v in _H11.items()}
+
+    class H11State:
+        our_state = getattr(mod.h11, inv.get(int(args["our"]), "ERROR"), mod.h11.ERROR)
+        their_state = getattr(mod.h11, inv.get(int(args["their"]), "ERROR"), mod.h11.ERROR)
+
+        def start_next_cycle(self) -> None:
+            pass
+
+    closed: list[int] = []
+
+    class Stream:
+        def get_extra_info(self, k: str) -> typing.Any:
+            return args["readable"] == "True"
+
+        def close(self) -> None:
+            closed.append(1)
+
+        async def aclose(self) -> None:
+            closed.append(1)
+
+    conn = cls.__new__(cls)
+    conn._state_lock = (mod.AsyncLock if flavour == "async" else mod.Lock)()
+    conn._h11_state = H11State()
+    conn._state = mod.HTTPConnectionState.ACTIVE
+    conn._keepalive_expiry = e
+    conn._expire_at = x
+    conn._network_stream = Stream()
+    clock = [t0]
+
+    class T:
+        @staticmethod
+        def monotonic() -> typing.Any:
+            return clock[0]
+
+    saved = mod.time
+    mod.time = T
+    try:
+        if flavour == "async":
+            vrt.new_runtime()
+            vrt.run_single(conn._response_closed())
+        else:
+            conn._response_closed()
+        clock[0] = t1
+        got = conn.has_expired()
+    except Exception:
+        return True
+    finally:
+        mod.time = saved
+    done = H11State.our_state is mod.h11.DONE and H11State.their_state is mod.h11.DONE
+    if done:
+        want = (e is not None and t1 > t0 + e) or (e is None and x is not None and t1 > x) or args["readable"] == "True"
+        return not (conn._state == mod.HTTPConnectionState.IDLE and bool(got) == bool(want))
+    return not (conn._state == mod.HTTPConnectionState.CLOSED and closed)
 
 
 def validate(seed: int = 0) -> tuple[int, list[str]]:
